@@ -63,6 +63,8 @@ def inBoxClosed (b : Box) (p : P3) : Bool :=
 /-- A half-integer point: all doubled coordinates odd. -/
 def Half (p : P3) : Prop := p.x % 2 = 1 ∧ p.y % 2 = 1 ∧ p.z % 2 = 1
 
+instance (p : P3) : Decidable (Half p) := by unfold Half; exact inferInstance
+
 def halfB (p : P3) : Bool := decide (p.x % 2 = 1) && decide (p.y % 2 = 1) && decide (p.z % 2 = 1)
 
 /-! ## solids -/
@@ -137,6 +139,8 @@ def Pose.box (π : Pose) (b : Box) : Box :=
 def Pose.solid (π : Pose) (S : Solid) : Solid := S.map fun sb => (sb.1, π.box sb.2)
 
 def Pose.ok (π : Pose) : Prop := 0 < π.sx ∧ 0 < π.sy ∧ 0 < π.sz
+
+instance (π : Pose) : Decidable π.ok := by unfold Pose.ok; exact inferInstance
 
 /-! ## `in_volume` -/
 
